@@ -1303,6 +1303,72 @@ func (e *engine) scenario(kind string, n int) {
 		q()
 		w.expectSeq(b, "messages transmitted to the receiver (call 2->1)", []string{"recv:1", "recv:2"}, "recv")
 		act("attach 1->2, 2->1; 2->1 becomes a slow client; A: send m1 (B parks in its Send); A: send m2 (stored); A: authentic send stamped with a stale epoch (dropped); B resumes")
+	case "superseded-late-exit":
+		// C23/C22 sentinel: B1's write loop is parked in Send (dead connection the relay has not
+		// noticed) while B2 replaces it (new epoch); B1 ends LATE, at a chosen point of an exchange of
+		// the new epoch; its cleanup must change nothing of the session of A and B2.
+		a := w.newSession(1, 2)
+		q()
+		b1 := w.newSession(2, 1)
+		q()
+		b1.holdSends()
+		w.submit(a, "send") // forwarded to B1: its handler parks in Send
+		select {
+		case <-b1.inSend:
+		case <-time.After(2 * time.Second):
+		}
+		q()
+		b2 := w.newSession(2, 1) // replaces B1 (new epoch); B1 stays parked
+		q()
+		parkIn := func(s *sessStream) {
+			select {
+			case <-s.inSend:
+			case <-time.After(2 * time.Second):
+			}
+		}
+		switch n % 3 {
+		case 0: // B2's message was forwarded to A and is not yet acknowledged
+			w.submit(b2, "send")
+			q()
+			b1.release()
+			q()
+			w.submit(a, fmt.Sprintf("ack=%d", b2.nextQ))
+			q()
+			w.expectSeq(b2, "acknowledgements transmitted to the sender (call 2->1, new stream)", []string{fmt.Sprintf("ack:%d", b2.nextQ)}, "ack")
+			act("attach 1->2, 2->1; 2->1 stalls; send on 1->2 (B1 parks in Send); 2 re-attaches (new epoch); send on the new 2->1 (forwarded to 1); B1 ends late; 1 acknowledges")
+		case 1: // B2's message is stored for A and not yet forwarded (A's handler is parked writing an ack)
+			a.holdSends()
+			w.submit(a, "send")
+			q()
+			w.submit(b2, fmt.Sprintf("ack=%d", a.nextQ))
+			parkIn(a)
+			q()
+			w.submit(b2, "send")
+			q()
+			b1.release()
+			q()
+			a.release()
+			q()
+			w.submit(a, fmt.Sprintf("ack=%d", b2.nextQ))
+			q()
+			w.expectSeq(b2, "acknowledgements transmitted to the sender (call 2->1, new stream)", []string{fmt.Sprintf("ack:%d", b2.nextQ)}, "ack")
+			act("attach 1->2, 2->1; 2->1 stalls; send on 1->2 (B1 parks in Send); 2 re-attaches (new epoch); 1->2 becomes slow: send on 1->2, acknowledged by 2 (A parks writing the ack); send on the new 2->1 (stored for 1); B1 ends late; A resumes; 1 acknowledges")
+		default: // A's acknowledgement of B2's message is stored for B2 and not yet delivered (B2's handler is parked)
+			b2.holdSends()
+			w.submit(a, "send")
+			parkIn(b2)
+			q()
+			w.submit(b2, "send")
+			q()
+			w.submit(a, fmt.Sprintf("ack=%d", b2.nextQ))
+			q()
+			b1.release()
+			q()
+			b2.release()
+			q()
+			w.expectSeq(b2, "acknowledgements transmitted to the sender (call 2->1, new stream)", []string{fmt.Sprintf("ack:%d", b2.nextQ)}, "ack")
+			act("attach 1->2, 2->1; 2->1 stalls; send on 1->2 (B1 parks in Send); 2 re-attaches (new epoch); the new 2->1 becomes slow: send on 1->2 (B2 parks in Send); send on the new 2->1; 1 acknowledges (stored for B2); B1 ends late; B2 resumes")
+		}
 	case "send-error-exit":
 		// C24/C25 sentinel: the handler's write fails (strm.Send returns an error): the call must end,
 		// and its cleanup must leave the relay as if the call had been cancelled (partner told Closed,
@@ -2187,6 +2253,11 @@ func (e *engine) run() {
 	}
 	for i := 0; i < 3; i++ {
 		e.scenario("send-error-exit", i)
+	}
+	// wave 5: late exit of a superseded Session handler at three points of the successor's exchange
+	e.rep.Require("trace.superseded-late-exit.quiescent")
+	for i := 0; i < 3; i++ {
+		e.scenario("superseded-late-exit", i)
 	}
 	e.scenario("late-attach", 1)
 	e.scenario("listen-reopen", 2)
